@@ -736,11 +736,13 @@ mod n {
     }
 
     // ---- C15: the model checker reports exactly the broken links -------------------------------------------
-    fn link(c: &mut Ctx, valid: Uuid) -> (Uuid, bool) {
-        match c.pick(3) {
+    /// a link: valid / nil / absent everywhere / the id of an element of ANOTHER collection (still broken)
+    fn link(c: &mut Ctx, valid: Uuid, elsewhere: Uuid) -> (Uuid, bool) {
+        match c.pick(4) {
             0 => (valid, true),
             1 => (Uuid::nil(), false),
-            _ => (uid(0xDEAD), false),
+            2 => (uid(0xDEAD), false),
+            _ => (elsewhere, false),
         }
     }
 
@@ -748,7 +750,7 @@ mod n {
     fn n_c15_check() {
         drive(
             "C15.check",
-            "check(&Model): 2 spaces; wall 0 over space link {ok,nil,absent} x construction link x adjacent {none,ok,nil,absent}; wall 1 over space link; 2 windows (window 0 over wall link x construction link, window 1 over wall link); 2 bridges each over length {-1,-0.0,0,1}",
+            "check(&Model): 2 spaces; every link over {ok, nil, absent, id of an element of another collection}: wall 0 space x construction x adjacent {none,ok,nil,absent,wall id}; wall 1 space; window 0 wall x construction; window 1 wall; 2 bridges each over length {-1,-0.0,0,1}",
             |c| {
                 let mut m = empty_model();
                 m.spaces.push(space(0xA0, true, SpaceType::CONDITIONED, 1.0, 3.0));
@@ -760,14 +762,15 @@ mod n {
                 m.cons.wincons.push(wincons(0xD0, uid(0xF0), uid(0xF1)));
                 let mut want: Vec<Uuid> = vec![];
                 // wall 0
-                let (sp, ok_sp) = link(c, uid(0xA0));
-                let (cn, ok_cn) = link(c, uid(0xC0));
-                let nx = c.pick(4);
+                let (sp, ok_sp) = link(c, uid(0xA0), uid(2));
+                let (cn, ok_cn) = link(c, uid(0xC0), uid(0xD0));
+                let nx = c.pick(5);
                 let (nid, ok_nx) = match nx {
                     0 => (None, true),
                     1 => (Some(uid(0xA1)), true),
                     2 => (Some(Uuid::nil()), false),
-                    _ => (Some(uid(0xDEAD)), false),
+                    3 => (Some(uid(0xDEAD)), false),
+                    _ => (Some(uid(2)), false), // the id of a wall, not of a space
                 };
                 m.walls.push(wall(1, BoundaryType::INTERIOR, sp, nid, cn, 90.0, 0.0, rect(4.0, 3.0), None));
                 for ok in [ok_sp, ok_cn, ok_nx] {
@@ -776,21 +779,21 @@ mod n {
                     }
                 }
                 // wall 1
-                let (sp1, ok_sp1) = link(c, uid(0xA1));
+                let (sp1, ok_sp1) = link(c, uid(0xA1), uid(0xC0));
                 m.walls.push(wall(2, BoundaryType::EXTERIOR, sp1, None, uid(0xC0), 90.0, 0.0, rect(4.0, 3.0), None));
                 if !ok_sp1 {
                     want.push(uid(2));
                 }
                 // windows
-                let (ww, ok_ww) = link(c, uid(1));
-                let (wc, ok_wc) = link(c, uid(0xD0));
+                let (ww, ok_ww) = link(c, uid(1), uid(0xA0));
+                let (wc, ok_wc) = link(c, uid(0xD0), uid(0xC0));
                 m.windows.push(window(0x11, ww, wc, 1.0, 1.0, None, 0.0));
                 for ok in [ok_ww, ok_wc] {
                     if !ok {
                         want.push(uid(0x11));
                     }
                 }
-                let (ww1, ok_ww1) = link(c, uid(2));
+                let (ww1, ok_ww1) = link(c, uid(2), uid(0x11));
                 m.windows.push(window(0x12, ww1, uid(0xD0), 1.0, 1.0, None, 0.0));
                 if !ok_ww1 {
                     want.push(uid(0x12));
@@ -1237,6 +1240,7 @@ mod n {
         Truncate,
         IdNil,
         IdAbsent,
+        IdOther,
         Zero,
         Negate,
     }
@@ -1271,6 +1275,7 @@ mod n {
                 if st.len() == 36 && Uuid::parse_str(st).is_ok() {
                     out.push((path.clone(), Edit::IdNil));
                     out.push((path.clone(), Edit::IdAbsent));
+                    out.push((path.clone(), Edit::IdOther));
                 }
             }
             Number(_) => {
@@ -1313,6 +1318,12 @@ mod n {
             (Edit::Truncate, Value::Array(a)) => { let n = a.len() / 2; a.truncate(n); true }
             (Edit::IdNil, v @ Value::String(_)) => { *v = Value::String(Uuid::nil().to_string()); true }
             (Edit::IdAbsent, v @ Value::String(_)) => { *v = Value::String(uid(0xDEAD_BEEF).to_string()); true }
+            // an id that exists in the model, but names an element of another kind (a wall / a daily schedule)
+            (Edit::IdOther, v @ Value::String(_)) => {
+                let other = if v.as_str() == Some(uid(4).to_string().as_str()) { uid(0x50) } else { uid(4) };
+                *v = Value::String(other.to_string());
+                true
+            }
             (Edit::Zero, v @ Value::Number(_)) => { *v = serde_json::json!(0); true }
             (Edit::Negate, v @ Value::Number(_)) => {
                 let x = v.as_f64().unwrap_or(0.0);
@@ -1412,7 +1423,7 @@ mod n {
         let mut edits = vec![];
         collect_paths(&base, &mut vec![], &mut edits);
         let base_fp = fingerprint(&seed_model().energy_indicators());
-        drive("C14.edit1", "every single structural edit of the seed model's JSON tree (delete key / array item; empty, duplicate-first, truncate array; redirect id to nil / absent; zero / negate number)", |c| {
+        drive("C14.edit1", "every single structural edit of the seed model's JSON tree (delete key / array item; empty, duplicate-first, truncate array; redirect id to nil / absent / the id of another kind of element; zero / negate number)", |c| {
             let k = c.pick(edits.len());
             c14_run(c, &edits, &[k], &base, &base_fp);
         });
